@@ -332,6 +332,24 @@ pub fn child_main(spec: &str) {
         println!("(nostart)");
         std::process::exit(0);
     }
+    // warm-up: touch every call path once (on a machine whose disk is saturated the first execution of a
+    // code path can stall for a long time on demand paging of the binary; nothing has panicked yet, so these
+    // calls get the long evidence-free deadline)
+    let warm = [
+        do_ingest(&dbh, "canary"),
+        do_flush(&dbh),
+        do_query(&dbh, "SELECT COUNT(1) FROM canary"),
+        do_stats(&dbh, false),
+        do_stats(&dbh, true),
+        do_query(&dbh, "SELECT * FROM t LIMIT 1"),
+    ];
+    let _ = do_query(&dbh, "SELECT FROM");
+    let _ = do_query(&dbh, "SELECT i FROM nosuchtable");
+    let _ = do_query(&dbh, "SELECT s + 1 FROM t");
+    if warm.iter().any(|s| *s != Seen::Ok) || db::any_panic_so_far() {
+        println!("(nostart)");
+        std::process::exit(0);
+    }
     println!("(ready)");
     let mut wedged = false;
     for (ri, round) in it[3..].iter().enumerate() {
@@ -595,7 +613,7 @@ static PREFETCH: Mutex<Option<Map<String, std::sync::mpsc::Receiver<(String, boo
 
 fn total_deadline(sc: &Sx) -> Duration {
     let rounds = sc.items().len().saturating_sub(3) as u64;
-    Duration::from_secs(120 + 30 * rounds)
+    Duration::from_secs(300 + 40 * rounds)
 }
 
 /// which locks a caller-side panic held, from the request kind and the panic site (trusted table)
